@@ -12,7 +12,7 @@ import (
 )
 
 type Act struct {
-	K    string // pp (req.PathParameters()[B] = V; nothing to the model, see ppGuard in real.go) | we (WriteErrorString N B; to the model: wh N, w B) | sa with an empty V = SetAttribute(B, nil) | w | ws (io.WriteString on the raw writer; a "w" to the model) | hj (Hijack; nothing to the model) | wh | ah | sa | panic
+	K    string // re (req.ReadEntity into an entity of the harness whose UnmarshalJSON panics with the value B names, "" = it does not; the request's body is put back first, as a buffering middleware does; to the model: panic B, or nothing) | pp (req.PathParameters()[B] = V; nothing to the model, see ppGuard in real.go) | we (WriteErrorString N B; to the model: wh N, w B) | sa with an empty V = SetAttribute(B, nil) | w | ws (io.WriteString on the raw writer; a "w" to the model) | hj (Hijack; nothing to the model) | wh | ah | sa | panic
 	B, V string
 	N    int
 }
@@ -53,6 +53,24 @@ type Cfg struct {
 	// that refuses requests for RouterErrPath with a plain error value (not a restful.ServiceError).
 	// Not sent to the model: requests for that path are sent under an entry of their own.
 	RouterErr bool
+	// Reuse: how the routes are declared (not part of the model's input: the table that results is the
+	// one a RouteBuilder per route gives). 0 = every route from a RouteBuilder of its own; otherwise
+	// the seed that decides, route by route, whether the RouteBuilder VALUE that built the previous
+	// route of the WebService is used again with Method / Path / To (and whatever else the declaration
+	// says) set anew — possible when the route's filters and conditions extend the ones the builder
+	// carries (Filter and If only append) —, and whether the last route of a WebService is removed
+	// (RemoveRoute) and registered again from the builder that was kept.
+	Reuse uint64
+	// Churn: registration history of the container before the judged requests (not part of the model's
+	// input: the container that results has the same WebServices, filters and handlers). Bit 0: after
+	// the WebServices are added, a throw-away WebService is added and removed again; bit 1: the
+	// WebService added last is removed and added again; bit 2: the same before the first WebService of
+	// the table is added. All of it before the plain handlers are registered (Container.Remove builds a
+	// new ServeMux from the WebServices alone).
+	Churn int
+	// Bodies: scripts of this configuration read the request's entity ("re" acts) and every request of
+	// its histories carries a JSON entity (SReq.BodyDoc), plain or compressed.
+	Bodies bool
 }
 
 type SReq struct {
@@ -64,6 +82,10 @@ type SReq struct {
 	// RouterErr: the request is for RouterErrPath on a container whose RouteSelector refuses it with a
 	// plain error (entry "dispatch" or "serveDispatch"; to the driver: "routerErr" / "serveRouterErr")
 	RouterErr bool
+	// BodyDoc / BodyEnc: the request's entity (a JSON document) and its Content-Encoding ("", "gzip",
+	// "deflate"). Not sent to the model: reading it writes nothing to the response; what the read does
+	// to the compressor provider is counted apart (Result.RdAcq / RdRel).
+	BodyDoc, BodyEnc string
 }
 
 // DriverEntry is the entry atom of the protocol line.
@@ -100,6 +122,12 @@ func actsSx(kw string, as []Act) *sx.Node {
 		}
 		if a.K == "pp" {
 			continue // a write into the request's own parameter map: not observed within the request (ppGuard), must not be observable from another
+		}
+		if a.K == "re" {
+			if a.B != "" {
+				n.List = append(n.List, sx.K("panic", sx.H(a.B))) // the decoding of the entity panics
+			}
+			continue
 		}
 		if a.K == "we" {
 			n.List = append(n.List, sx.K("wh", sx.N(a.N)), sx.K("w", sx.H(a.B)))
@@ -180,8 +208,12 @@ type Result struct {
 	Log      []Event
 	Escaped  *string
 	Recov    int
-	Acq, Rel int
-	DblRel   int // ledger: releases of objects that were not outstanding
+	Acq, Rel int // compressing writers taken from / returned to the provider
+	// RdAcq, RdRel: decompressing readers (request entities read by ReadEntity) taken from / returned
+	// to the provider; not part of Canon (the model speaks of the response), sent to the driver as part
+	// of the ledger the predicates look at (acq, rel: "no compressor lost")
+	RdAcq, RdRel int
+	DblRel       int // ledger: releases of objects that were not outstanding
 
 	// RecovDefault: calls of the library's own recover handler (container.go logStackOnRecover) while
 	// the request was served, counted through the package logger (one "recover from panic situation"
